@@ -33,7 +33,7 @@ func EncodeXML(s *Schema, rootName string, d *DNode, interleave func(n int) []in
 	if s.AugName != "" {
 		rootNS = "urn:" + s.AugName
 	}
-	fmt.Fprintf(&b, "<%s xmlns=\"%s\">", rootName, rootNS)
+	fmt.Fprintf(&b, "<%s xmlns=\"%s\">", rootName, xmlEsc(rootNS))
 	encXMLBody(&b, s, d, rootNS, interleave)
 	fmt.Fprintf(&b, "</%s>", rootName)
 	return b.String()
@@ -44,7 +44,7 @@ func encXMLBody(b *bytes.Buffer, s *Schema, d *DNode, curNS string, interleave f
 	open := func(c *SNode) (string, string) {
 		ns := s.nsOf(c)
 		if ns != curNS {
-			return fmt.Sprintf("<%s xmlns=\"%s\">", c.Name, ns), ns
+			return fmt.Sprintf("<%s xmlns=\"%s\">", c.Name, xmlEsc(ns)), ns
 		}
 		return "<" + c.Name + ">", ns
 	}
